@@ -530,28 +530,27 @@ class Merge(Expr):
 
             # Find columns to project on the left
             for col in left.columns:
-                if col in left_on or col in projection:
+                suffixed = f"{col}{left_suffix}" in projection
+                if col in left_on or col in projection or suffixed:
                     project_left.append(col)
-                elif f"{col}{left_suffix}" in projection:
-                    project_left.append(col)
-                    if col in right.columns:
-                        # Right column must be present
-                        # for the suffix to be applied
-                        project_right.append(col)
+                if suffixed and col in right.columns:
+                    # Right column must be present for the suffix to be
+                    # applied (also when the left column is a merge key)
+                    project_right.append(col)
 
             # Find columns to project on the right
             for col in right.columns:
-                if col in project_right:
-                    # already required by a suffixed left column
-                    continue
-                if col in right_on or col in projection:
+                suffixed = f"{col}{right_suffix}" in projection
+                if col not in project_right and (
+                    col in right_on or col in projection or suffixed
+                ):
                     project_right.append(col)
-                elif f"{col}{right_suffix}" in projection:
-                    project_right.append(col)
-                    if col in left.columns and col not in project_left:
-                        # Left column must be present
-                        # for the suffix to be applied
-                        project_left.append(col)
+                if suffixed and col in left.columns and col not in project_left:
+                    # Left column must be present
+                    # for the suffix to be applied
+                    project_left.append(col)
+            project_left = [col for col in left.columns if col in project_left]
+            project_right = [col for col in right.columns if col in project_right]
 
             if set(project_left) < set(left.columns) or set(project_right) < set(
                 right.columns
